@@ -17,6 +17,9 @@ EXTENDS Integers, Sequences, FiniteSets
 
 T(b) == [base |-> b, agg |-> "none", lo |-> 0, hi |-> 0, uniq |-> FALSE, optelem |-> FALSE]
 Agg(a, lo, hi, b) == [base |-> b, agg |-> a, lo |-> lo, hi |-> hi, uniq |-> FALSE, optelem |-> FALSE]
+AggF(a, lo, hi, b, u, o) == [base |-> b, agg |-> a, lo |-> lo, hi |-> hi, uniq |-> u, optelem |-> o]
+(* aggregate of aggregates: the element type is itself a typeref (field inner); base is unused *)
+AggOf(a, lo, hi, in) == [base |-> "", agg |-> a, lo |-> lo, hi |-> hi, uniq |-> FALSE, optelem |-> FALSE, inner |-> in]
 A(n, ty, opt) == [name |-> n, ty |-> ty, opt |-> opt]
 NoTree == [k |-> "none"]
 Leaf(e) == [k |-> "leaf", e |-> e]
@@ -35,6 +38,36 @@ Types(c) == << [name |-> "colour", k |-> "enum", items |-> <<"red", "green", "bl
                 << [name |-> "colour2", k |-> "rename", items |-> <<>>, members |-> <<>>, base |-> T("colour")],
                    [name |-> "pick2", k |-> "rename", items |-> <<>>, members |-> <<>>, base |-> T("pick")],
                    [name |-> "nest", k |-> "aggr", items |-> <<>>, members |-> <<>>, base |-> Agg("LIST", 1, 2, "LIST [1:2] OF INTEGER")] >>)
+(* type shapes (choice field ts): "base" = the types above only; "aggs" = one named type and one attribute per      *)
+(* aggregate form the language allows (UNIQUE on ARRAY and LIST, OPTIONAL on ARRAY, fixed and open bounds, an     *)
+(* aggregate of flagged aggregates); "chain" = a defined type, a rename of it and a rename of the rename, for a   *)
+(* simple, an enumeration and a select head, under every assignment of three names to the three positions (the    *)
+(* generators visit types in hash order of their names, not in declaration order)                                *)
+Perm3 == {<<"m1", "m2", "m3">>, <<"m1", "m3", "m2">>, <<"m2", "m1", "m3">>, <<"m2", "m3", "m1">>, <<"m3", "m1", "m2">>, <<"m3", "m2", "m1">>}
+TyD(n, k, items, members, base) == [name |-> n, k |-> k, items |-> items, members |-> members, base |-> base]
+ChainTypes(of, p) ==
+  << CASE of = "simple" -> TyD(p[1], "simple", <<>>, <<>>, T("REAL"))
+       [] of = "enum"   -> TyD(p[1], "enum", <<"x1", "x2">>, <<>>, T(""))
+       [] of = "select" -> TyD(p[1], "select", <<>>, <<"lab", "cnt">>, T("")),
+     TyD(p[2], IF of = "simple" THEN "simple" ELSE "rename", <<>>, <<>>, T(p[1])),
+     TyD(p[3], IF of = "simple" THEN "simple" ELSE "rename", <<>>, <<>>, T(p[2])) >>
+AggTypes ==
+  << TyD("arr_p", "aggr", <<>>, <<>>, AggF("ARRAY", 0, 2, "INTEGER", FALSE, FALSE)),
+     TyD("arr_o", "aggr", <<>>, <<>>, AggF("ARRAY", 0, 2, "INTEGER", FALSE, TRUE)),
+     TyD("arr_u", "aggr", <<>>, <<>>, AggF("ARRAY", 0, 2, "INTEGER", TRUE, FALSE)),
+     TyD("arr_ou", "aggr", <<>>, <<>>, AggF("ARRAY", 1, 4, "STRING", TRUE, TRUE)),
+     TyD("lst_u", "aggr", <<>>, <<>>, AggF("LIST", 0, -1, "REAL", TRUE, FALSE)),
+     TyD("lst_p", "aggr", <<>>, <<>>, AggF("LIST", 1, 3, "REAL", FALSE, FALSE)),
+     TyD("set_p", "aggr", <<>>, <<>>, AggF("SET", 2, 5, "STRING", FALSE, FALSE)),
+     TyD("bag_p", "aggr", <<>>, <<>>, AggF("BAG", 1, -1, "cnt", FALSE, FALSE)) >>
+ExtraTypes(ts) == CASE ts.k = "base" -> <<>> [] ts.k = "aggs" -> AggTypes [] ts.k = "chain" -> ChainTypes(ts.of, ts.names)
+ExtraAttrs(ts) ==
+  CASE ts.k = "base" -> <<>>
+    [] ts.k = "chain" -> <<A("x1", T(ts.names[3]), FALSE), A("x2", T(ts.names[2]), TRUE)>>
+    [] ts.k = "aggs" -> <<A("y1", AggF("ARRAY", 1, 3, "lab", TRUE, TRUE), FALSE), A("y2", AggF("LIST", 0, -1, "e1", TRUE, FALSE), FALSE),
+                          A("y3", AggF("SET", 0, -1, "colour", FALSE, FALSE), TRUE), A("y4", AggF("BAG", 0, 2, "INTEGER", FALSE, FALSE), FALSE),
+                          A("y5", T("arr_ou"), TRUE), A("y6", AggF("ARRAY", 0, 1, "REAL", TRUE, FALSE), FALSE),
+                          A("y7", AggOf("LIST", 0, -1, AggF("ARRAY", 0, 2, "INTEGER", TRUE, FALSE)), FALSE)>>
 RootAttrs(ak) ==
   CASE ak = 1 -> <<A("a1", T("INTEGER"), FALSE), A("a2", T("REAL"), TRUE)>>
     [] ak = 2 -> <<A("a1", T("INTEGER"), FALSE), A("a2", T("colour"), FALSE), A("a3", T("lab"), TRUE), A("a4", Agg("LIST", 1, 3, "INTEGER"), FALSE)>>
@@ -60,27 +93,37 @@ WithRules(c, e) ==
   ELSE e
 Valid(c) ==
   [name |-> "m",
-   types |-> Types(c),
+   types |-> Types(c) \o ExtraTypes(c.ts),
    ents |-> [i \in 1..Len(Names(c)) |->
                LET n == Names(c)[i] IN
                WithRules(c, Ent(n, Supers(c, n), (n = "e1" /\ c.abs /\ c.inh \notin {"none"}), IF n = "e1" THEN RootExpr(c) ELSE NoTree,
                    IF n = "e1" THEN RootAttrs(c.ak)
                    ELSE IF n = "e2" THEN <<A("b1", T("e1"), FALSE), A("b2", T("STRING"), TRUE)>>
-                   ELSE IF n = "e3" THEN <<A("c1", T("BOOLEAN"), FALSE)>>
+                   ELSE IF n = "e3" THEN <<A("c1", T("BOOLEAN"), FALSE)>> \o ExtraAttrs(c.ts)
                    ELSE <<A("g1", T("REAL"), TRUE)>>))],
    funcs |-> IF c.rules THEN <<[name |-> "f1", nparams |-> 1]>> ELSE <<>>,
    aux |-> c.aux]
+TypeShapes(deep) == {[k |-> "aggs"]} \cup {[k |-> "chain", of |-> o, names |-> p] : o \in {"simple", "enum", "select"},
+                                                   p \in (IF deep THEN Perm3 ELSE {<<"m1", "m2", "m3">>, <<"m3", "m1", "m2">>, <<"m2", "m3", "m1">>})}
 Choices(deep) ==
-  {[inh |-> i, sx |-> s, abs |-> a, ak |-> k, rules |-> r, aux |-> x] :
+  {[inh |-> i, sx |-> s, abs |-> a, ak |-> k, rules |-> r, aux |-> x, ts |-> [k |-> "base"]] :
      i \in (IF deep THEN {"none", "chain", "multi", "fan"} ELSE {"chain", "multi"}),
      s \in (IF deep THEN {"none", "oneof", "andor"} ELSE {"none", "oneof"}),
      a \in (IF deep THEN BOOLEAN ELSE {FALSE}), k \in (IF deep THEN 1..3 ELSE {2, 3}), r \in BOOLEAN,
      x \in BOOLEAN}
+  \cup {[inh |-> "chain", sx |-> "none", abs |-> FALSE, ak |-> 2, rules |-> FALSE, aux |-> FALSE, ts |-> t] : t \in TypeShapes(deep)}
 
 (* ------------------------------------------------------------------ single-fault mutants (C04, C20) *)
 (* [class, at: index of the entity/type concerned, lexeme: the offending name a diagnostic should quote ("" = none), *)
 (*  code: diagnostic family expected ("" = any error)]                                                             *)
-M(cl, at, lx, code) == [class |-> cl, at |-> at, lexeme |-> lx, code |-> code]
+M(cl, at, lx, code) == [class |-> cl, at |-> at, lexeme |-> lx, code |-> code, pos |-> ""]
+(* an undefined name can stand at any operand position of an expression; the resolver treats the operands of    *)
+(* relational operators, of IN / LIKE, of intervals, of function calls, of QUERY and of unary operators by      *)
+(* separate code, so every one of them is a mutant of its own (DERIVE and WHERE context)                        *)
+UndefRefPos == {"where_left_rel", "where_right_rel", "where_arith", "derive_left_rel", "derive_right_rel", "derive_plain",
+                "derive_in_left", "derive_in_right", "derive_eq_left", "derive_insteq_left", "derive_interval", "derive_neg",
+                "derive_query", "derive_like_left", "derive_arith_left", "derive_aggr_init", "derive_builtin_arg",
+                "derive_index", "derive_group", "rule_left_rel", "func_local_left_rel"}
 Mutants(c) ==
   {M("syntax_semicolon", at, "", "") : at \in 1..2}
   \cup {M("syntax_keyword", at, "", "") : at \in 1..2}
@@ -94,6 +137,7 @@ Mutants(c) ==
   \cup {M("dup_attr", 1, "a1", "DUPLICATE_DECL"), M("dup_type_entity", 1, "e1", "DUPLICATE_DECL")}
   \cup (IF c.inh # "none" THEN {M("subtype_cycle", 1, "", "SUBSUPER_LOOP"), M("inherited_redeclared", 2, "a1", "OVERLOADED_ATTR")} ELSE {})
   \cup {M("select_cycle", 0, "", "SELECT_LOOP")}
+  \cup {[M("undef_ref", 1, "nosuch_a", "UNDEFINED") EXCEPT !.pos = p] : p \in UndefRefPos}
 
 (* lexical mutants (C20): the offending character / identifier / count must be the one quoted *)
 LexMutants ==
@@ -115,8 +159,11 @@ DictEntity(s, e) == [name |-> e.name, abstract |-> e.abstract, supers |-> e.supe
                      inverse |-> [i \in 1..Len(e.inverse) |-> [name |-> e.inverse[i].name, ent |-> e.inverse[i].ent,
                                                                attr |-> e.inverse[i].attr, setof |-> e.inverse[i].setof]]]
 (* known deviations of the generator (never part of the property): defined types that get no dictionary entry *)
-Dev_RenamedEnumNotRegistered(s, t) == t.k = "rename" /\ \E i \in 1..Len(s.types) : s.types[i].name = t.base.base /\ s.types[i].k = "enum"
-Dev_NestedAggrNotRegistered(s, t) == t.k = "aggr" /\ t.name = "nest"      \* the family's only aggregate of aggregates
+TypeByName(s, n) == s.types[CHOOSE i \in 1..Len(s.types) : s.types[i].name = n]
+RECURSIVE RootKind(_, _)
+RootKind(s, t) == IF t.k = "rename" THEN RootKind(s, TypeByName(s, t.base.base)) ELSE t.k
+Dev_RenamedEnumNotRegistered(s, t) == t.k = "rename" /\ RootKind(s, t) = "enum"
+Dev_NestedAggrNotRegistered(s, t) == t.k = "aggr" /\ t.name = "nest"      \* the family's only named aggregate of aggregates
 Dictionary(s) == [entities |-> [i \in 1..Len(s.ents) |-> DictEntity(s, s.ents[i])], types |-> s.types]
 
 (* ------------------------------------------------------------------ Part 21 attribute order (C02, C18) *)
